@@ -97,8 +97,11 @@ DIP5 = _f([[0, 10], [1, 7], [2, '14.5'], [3, 11], [4, 20]])
 # and rejecting again at S_m, m > k): separates "stop at the first acceptable refinement, then top up" from "top up, then continue refining"
 BUMP6 = _f([[0, 1], [1, 6], [2, 1], [3, 4], [4, 2], [5, 0]])
 
+# two exactly linear arms: the global simplifier stops at 3 points for every threshold, so min_point_rdp takes its fixed-size fall-back
+ELBOW9 = _f([[i, v] for i, v in enumerate([16, 13, 10, 7, 4, '3.5', 3, '2.5', 2])])
 
-SPECIAL_CURVES = dict(zigzag=ZIGZAG, tie7=TIE7, bump6=BUMP6, dip5=DIP5, lm_cycle=LM_CYCLE, lm_cycle13=LM_CYCLE13)
+
+SPECIAL_CURVES = dict(elbow9=ELBOW9, zigzag=ZIGZAG, tie7=TIE7, bump6=BUMP6, dip5=DIP5, lm_cycle=LM_CYCLE, lm_cycle13=LM_CYCLE13)
 
 
 def get_curve(ref):
